@@ -22,6 +22,7 @@ def main():
     ctx = Ctx(spec["prop"], spec["tier"], spec["seed"], spec["shard"],
               spec["nshards"], replaying=bool(spec.get("replay")))
     ctx.spec = spec
+    ctx.hb_path = spec["out"] + ".hb"
     if spec.get("budget_s"):
         ctx.deadline = time.time() + spec["budget_s"]
     if spec.get("quiet_stdout", True):
